@@ -38,3 +38,52 @@ Proof. exact balanced_stops_at_fixpoint. Qed.
 
 Print Assumptions C13_around.
 Print Assumptions C13_balanced.
+
+(* ---- time limits that never pass; the experimental move *)
+From Lithium Require Import PairsFixpointLimit PairsMove PairsMoveFixpoint.
+
+(* the property text does not exempt runs with a time limit: a limit that is never exceeded by any reading of
+   the clock (clk i <= clk 0 + l for every reading i) changes nothing - the run still ends at the fixpoint.
+   (c_limit = None is the special case with no reading at all.) *)
+Definition never_expires (cfg : mcfg) (clk : clock_t) : Prop :=
+  forall l, c_limit cfg = Some l -> forall i : nat, clk i <= clk O + l.
+
+Theorem C13_around_any_unexpired_limit :
+  forall cfg clk f tc0 file0 fuel rc w,
+    wf tc0 -> Forall (fun p => p <> []) (tc_parts tc0) -> content tc0 = file0 ->
+    c_min cfg = 1 -> is_power_of_two (c_max cfg) = true -> c_repeat cfg <> Never ->
+    never_expires cfg clk -> f file0 = true ->
+    run (pairs KAround cfg clk) (det f) fuel tc0 file0 = Finished rc w ->
+    exists tf, sub_reducible tc0 tf /\ w_file w = content tf /\ f (content tf) = true /\
+               around_fixpoint f tf.
+Proof. exact around_stops_at_fixpoint_limit. Qed.
+
+Theorem C13_balanced_any_unexpired_limit :
+  forall cfg clk f tc0 file0 fuel rc w,
+    wf tc0 -> all_reducible tc0 -> Forall (fun p => p <> []) (tc_parts tc0) -> content tc0 = file0 ->
+    c_min cfg = 1 -> is_power_of_two (c_max cfg) = true -> c_repeat cfg <> Never ->
+    never_expires cfg clk -> f file0 = true ->
+    run (pairs KBalanced cfg clk) (det f) fuel tc0 file0 = Finished rc w ->
+    exists tf, sub_reducible tc0 tf /\ w_file w = content tf /\ f (content tf) = true /\
+               balanced_fixpoint f tf.
+Proof. exact balanced_stops_at_fixpoint_limit. Qed.
+
+Print Assumptions C13_around_any_unexpired_limit.
+Print Assumptions C13_balanced_any_unexpired_limit.
+
+(* minimize-balanced WITH the experimental move (Model/PairsMove.v): the property text makes no exception for
+   it.  A run that FINISHES (the unchanged code can also fail its own assertion after an accepted move: that is
+   an Aborted run) ends at the same fixpoint; the final testcase is all-reducible, keeps before/after, and its
+   atoms are atoms of the original (moves permute, deletions delete). *)
+Theorem C13_balanced_with_move :
+  forall cfg clk f tc0 file0 fuel rc w,
+    wf tc0 -> all_reducible tc0 -> Forall (fun p => p <> []) (tc_parts tc0) -> content tc0 = file0 ->
+    c_min cfg = 1 -> is_power_of_two (c_max cfg) = true -> c_repeat cfg <> Never ->
+    never_expires cfg clk -> f file0 = true ->
+    run (pairs_move cfg clk) (det f) fuel tc0 file0 = Finished rc w ->
+    exists tf, wf tf /\ all_reducible tf /\ tc_before tf = tc_before tc0 /\ tc_after tf = tc_after tc0 /\
+               (forall p, In p (tc_parts tf) -> In p (tc_parts tc0)) /\
+               w_file w = content tf /\ f (content tf) = true /\ balanced_fixpoint f tf.
+Proof. exact balanced_move_stops_at_fixpoint. Qed.
+
+Print Assumptions C13_balanced_with_move.
